@@ -342,14 +342,18 @@ pub fn precise_diff<'py>(
                     day_diff += days_in_last_month;
                 }
             }
-            Ordering::Equal => {
-                // We have exactly a full month
+            Ordering::Equal
+                if dtinfo2.day == days_in_month && dtinfo2.day - dtinfo1.day == day_diff =>
+            {
+                // We have exactly a full month: the start day does not exist
+                // in the end month and the end is the last day of its month
+                // (e.g. Jan 31 -> Feb 28), with no day borrowed by the time part.
                 // We remove the days difference
                 // and add one to the months difference
                 day_diff = 0;
                 month_diff += 1;
             }
-            Ordering::Greater => {
+            _ => {
                 // We have a full month
                 day_diff += days_in_last_month;
             }
